@@ -1,16 +1,22 @@
 #!/bin/bash
-# usage: neutral_sweep.sh [tier] [pattern]   -> neutral/RESULTS.md (owner check + neighbours per change; expectation exit 0)
-tier="${1:-quick}"; pat="${2:-C}"
+# usage: neutral_sweep.sh [tier] [shards]   -> neutral/RESULTS.md (owner check + neighbours per change; expectation exit 0)
+tier="${1:-quick}"; n="${2:-4}"
 out=/verif/neutral/RESULTS.md
-echo "| change | checks run | result |" > $out.tmp; echo "|---|---|---|" >> $out.tmp
 tmp=$(mktemp -d /tmp/neutral-XXXXXX)
-for d in /verif/neutral/$pat*-*/ /verif/neutral/w2-$pat*-*/; do [ -d "$d" ] || continue; id=$(basename $d); mkdir -p $tmp/$id; cp $d/patch.diff $tmp/$id/; done
-/verif/tools/try_neutral_all.sh $tmp $tier > $tmp/log 2>&1
+i=0
+for d in /verif/neutral/C*-*/ /verif/neutral/w2-C*-*/; do [ -d "$d" ] || continue; id=$(basename $d); s=$((i % n)); mkdir -p $tmp/s$s/$id; cp $d/patch.diff $tmp/s$s/$id/; i=$((i+1)); done
+for s in $(seq 0 $((n-1))); do /verif/tools/try_neutral_all.sh $tmp/s$s $tier > $tmp/log$s 2>&1 & done
+wait
+cat $tmp/log* > $tmp/log
+{
+echo "# Property-preserving changes vs. checks ($tier tier, $(date -u +%F), /repo $(git -C /repo rev-parse --short HEAD))"
+echo
+echo "| change | checks run | result |"; echo "|---|---|---|"
 awk '/^#####/{id=$2} /^== /{r[id]=r[id] " " $2 ":" $3} END{for(i in r) print i "|" r[i]}' $tmp/log | sort -V | while IFS='|' read id res; do
-  bad=$(echo "$res" | tr ' ' '\n' | grep -v "exit=0" | grep -c exit)
+  bad=$(echo "$res" | tr ' ' '\n' | grep exit | grep -vc "exit=0")
   verdict="silent"; [ "$bad" != "0" ] && verdict="ALARM"
-  [ "$id" = "w2-C08-1" ] && echo "$res" | grep -q "C08:exit=0" && verdict="$verdict (C09 witnesses, if any, are the nested conditional-attribute spellings that also fail on the unchanged tree)"
-  [ "$id" = "C02-3" ] && echo "$res" | grep -q "C07:exit=1" && [ "$bad" = "1" ] && verdict="silent (C07 alarm is correct: expressions dropped from the source map)"
-  echo "| $id |$res | $verdict |" >> $out.tmp
+  [ "$id" = "C02-3" ] && echo "$res" | grep -q "C07:exit=1" && [ "$bad" = "1" ] && verdict="silent (the C07 report is correct: the change drops string-literal expressions from the source map)"
+  echo "| $id |$res | $verdict |"
 done
-mv $out.tmp $out; cp $tmp/log /verif/neutral/LAST.log; rm -rf $tmp; grep -c ALARM $out
+} > $out
+cp $tmp/log /verif/neutral/LAST.log; rm -rf $tmp; grep -c ALARM $out
